@@ -2,12 +2,22 @@
 import faulthandler
 import importlib
 import json
+import signal
 import sys
 import traceback
 
 
+class JobTimeout(BaseException):
+    pass
+
+
+def _alarm(*a):
+    raise JobTimeout()
+
+
 def main():
     faulthandler.enable()
+    signal.signal(signal.SIGALRM, _alarm)
     modname, jf, of = sys.argv[1:4]
     from . import env
     env.use_repo()
@@ -19,8 +29,13 @@ def main():
             out.write(json.dumps({'start': job['_i']}) + '\n')
             out.flush()
             try:
+                signal.alarm(int(getattr(mod, 'JOB_TIMEOUT', 300)))
                 res = mod.run_job(job) or {}
+                signal.alarm(0)
+            except JobTimeout:
+                res = {'error': 'job watchdog fired (inconclusive, not a verdict):\n' + traceback.format_exc()[-1500:]}
             except Exception:
+                signal.alarm(0)
                 res = {'error': traceback.format_exc()}
             res['_i'] = job['_i']
             out.write(json.dumps(res, default=_default) + '\n')
